@@ -3,6 +3,7 @@ import Pandora.Spec.C18
 import Pandora.Model.C18Reg
 import Pandora.Model.C18Engine
 import Pandora.Spec.C18Sess
+import Pandora.Model.C18Hook
 
 namespace Pandora.Drv.C18
 open Pandora.Drv Pandora.Model.C18 Pandora.Spec.C18
@@ -553,8 +554,90 @@ def handleMiss (inp : Input) (kv : List (String × String)) (impl : String) : St
       (m, "fail:lookup:user code ran although nothing is registered for this type and name")
     else (m, "fail:lookup:a creation for a type and name nobody registered did not end with the lookup error")
 
+/-! ### `via=hookconf`: the config hooks on well- and ill-formed plugin config data -/
+
+namespace HookConf
+open Pandora.Model.C18Hook
+
+/-- "key~s~value" / "key~n~digits" -/
+def parseKVs (s : String) : Option (List KV) :=
+  (splitList s).mapM fun e =>
+    match e.splitOn "~" with
+    | [k, "s", v] => some ⟨k.toList, true, v⟩
+    | [k, "n", v] => some ⟨k.toList, false, v⟩
+    | _ => none
+
+/-- the user's settings among the entries that are no `type` key: a/b/c with numbers are fields 1/2/3; anything else the
+decoder refuses -/
+def settings (rest : List KV) : Option Cfg :=
+  rest.mapM fun kv =>
+    if kv.isStr then none else
+    match String.ofList kv.key, kv.val.toInt? with
+    | "a", some v => some (1, v)
+    | "b", some v => some (2, v)
+    | "c", some v => some (3, v)
+    | _, _ => none
+
+def handleHookConf (input impl : String) : String × String :=
+  let kv := parseKV input
+  match parseShape (getS kv "sh"), parseForm (getS kv "form"), parseCfg (getS kv "d"), parseKVs (getS kv "conf") with
+  | some sh, some form, some d, some data =>
+    if !registerOk sh then ("-", "fail:driver:via=hookconf with a registration Register refuses") else
+    let dk := match getS kv "dk" with | "i" => DataKind.anyMap | "x" => DataKind.other | _ => DataKind.strMap
+    let nsk := data.any fun e => e.key.head? == some '#'
+    let typeKnown := (getN? kv "pt").getD 0 == 0
+    let noFault : Nat → Bool := fun _ => false
+    let mk (user : Cfg) (ff : Nat → Bool) : Input :=
+      { sh, form, k := 1, w := { dflt := d, user, hasFill := true, fillFault := ff, ctorFault := noFault, factFault := noFault } }
+    let evCount (o : Obs) : Nat := (o.steps.map fun s => (s.evs.filter (!isFill ·)).length).sum
+    let exp : String × Nat :=
+      match hook true typeKnown dk nsk data with
+      | .pass => ("pass", 0)
+      | .parseErr => ("err.parse", 0)
+      | .create name rest =>
+        if name != "x" then ("noentry", 0) else
+        -- in a map with string keys a "#…" key is just an unknown key
+        match settings rest with
+        | none =>
+          (match run (mk [] fun _ => true) with
+           | some o => ("err.decode", evCount o)
+           | none => ("?", 0))
+        | some user =>
+          match run (mk user noFault) with
+          | some o =>
+            (match (products o.steps).getLast? with
+             | some p =>
+               if sh.cfg = .none then ("ok.0/0/0", evCount o)
+               else (s!"ok.{p.seen.get 1}/{p.seen.get 2}/{p.seen.get 3}", evCount o)
+             | none => ("?", 0))
+          | none => ("?", 0)
+    let m := s!"hc res={exp.1} ev={exp.2}"
+    let ikv := parseKV impl
+    let res := getS ikv "res"
+    -- the Spec: ill-formed data and unknown names end with the error result and run no user code; well-formed data
+    -- creates the component from the defaults overlaid by the settings
+    if res == "panic.emptyname" then
+      -- the model is the REPAIRED behaviour (`err.parse`); for the witness of the open finding it predicts nothing, so
+      -- that the case is reported as the known finding and not as a disagreement as well
+      ("-", "fail:emptyname:a plugin config with an empty plugin name ends in a panic (expectation failed: empty name) instead of the error result")
+    else if res.startsWith "panic." then (m, "fail:errors:the config hook panicked on config data")
+    else if res == "nil" || res.startsWith "other:" then (m, "fail:errors:the hook handed out neither a component nor an error")
+    else if exp.1 == "err.parse" || exp.1 == "noentry" then
+      if res.startsWith "ok." || res == "pass" then (m, "fail:lookup:ill-formed plugin config data / an unknown plugin name did not end with the error result")
+      else if getN? ikv "ev" != some 0 then (m, "fail:lookup:user code ran although the plugin config data are ill-formed / the name is unknown")
+      else (m, "ok")
+    else if exp.1.startsWith "ok." then
+      if res != exp.1 then (m, "fail:config:the component created through the hook was not built from the defaults overlaid by the user's settings")
+      else if getN? ikv "ev" != some exp.2 then (m, "fail:counts:user code invoked another number of times than the constructor shape prescribes")
+      else (m, "ok")
+    else (m, "ok")
+  | _, _, _, _ => ("-", "fail:driver:unparsable input")
+
+end HookConf
+
 def handle : Handler := fun input impl =>
   if getS (parseKV input) "sess" == "1" then Sess.handleSess input impl else
+  if getS (parseKV input) "via" == "hookconf" then HookConf.handleHookConf input impl else
   if getS (parseKV input) "hist" == "1" then handleHist input impl else
   if getS (parseKV input) "via" == "reg" then handleReg (parseKV input) impl else
   if getS (parseKV input) "via" == "engine" then handleEngine input impl else
